@@ -167,4 +167,77 @@ def sDot (S : Csr α) (q : Nat) (R : List (List α)) : List (List α) :=
 
 end
 
+/-! ### `Kernel::new` and the dispatching accessors of `KernelBase`
+
+Every construction wrapper of `KernelParams` (the six `Transformer` impls for `&Array2`, `ArrayView2`,
+`&ArrayView2`, `DatasetBase<Array2, T>`, `&DatasetBase<Array2, T>`, `&DatasetBase<ArrayView2, T>`) is
+`Kernel::new(records.view(), params)`; the memory layout of the records is invisible through `row(i)`.
+So all calling forms are this one function of the record rows. -/
+
+/-- `KernelType` -/
+inductive Kind where
+  | dense
+  | sparse (k : Nat)
+
+/-- `KernelInner`: the dense matrix, or the CSR matrix together with its side length -/
+inductive Inner (α : Type) where
+  | dense (K : List (List α))
+  | sparse (n : Nat) (S : Csr α)
+
+/-- `KernelMethod::is_linear` -/
+def Method.isLinear {α : Type} : Method α → Bool
+  | .linear => true
+  | _ => false
+
+section
+variable {α : Type} [Add α] [Sub α] [Mul α] [Div α] [Neg α] [OfNat α 0] [Transc α] [KPow α]
+
+/-- `Kernel::new`: `none` = the two asserts of `adjacency_matrix` -/
+def kernelNew (kind : Kind) (m : Method α) (X : List (List α)) (nb : List (List Nat)) : Option (Inner α) :=
+  match kind with
+  | .dense => some (.dense (dense m X))
+  | .sparse k => (sparseFromFn m X k nb).map (.sparse X.length)
+
+end
+
+section
+variable {α : Type} [Add α] [Mul α] [Neg α] [OfNat α 0]
+
+/-- `KernelBase::size` (= `Records::nsamples` = `Records::nfeatures`) -/
+def kSize : Inner α → Nat
+  | .dense K => dSize K
+  | .sparse n _ => n
+
+/-- `KernelBase::sum` -/
+def kSum : Inner α → List α
+  | .dense K => dSum K
+  | .sparse n S => sSum n S
+
+/-- `KernelBase::column`: `none` = panic (dense, out of bounds); the sparse variant never rejects -/
+def kColumn : Inner α → Nat → Option (List α)
+  | .dense K, i => dColumn K i
+  | .sparse n S, i => some (sColumn n S i)
+
+/-- `KernelBase::diagonal` -/
+def kDiag : Inner α → List α
+  | .dense K => dDiag K
+  | .sparse n S => sDiag n S
+
+/-- `KernelBase::to_upper_triangle` -/
+def kUpper : Inner α → List α
+  | .dense K => dUpper K
+  | .sparse n S => sUpper n S
+
+/-- `KernelBase::dot` -/
+def kDot : Inner α → Nat → List (List α) → List (List α)
+  | .dense K, q, R => dDot K q R
+  | .sparse _ S, q, R => sDot S q R
+
+/-- the matrix a kernel stands for -/
+def kMatrix : Inner α → List (List α)
+  | .dense K => K
+  | .sparse n S => sToDense n S
+
+end
+
 end LinfaSpec.Kernel
